@@ -1440,6 +1440,8 @@ func runC15(c *Ctx) {
 		}
 		// literal-shrinking / -growing classes (own original: harness/c15_lit.go)
 		pairs = append(pairs, c15LiteralPairs(c, p, newDir)...)
+		// numeric literals at the boundaries of the number representation changed to a nearby value
+		pairs = append(pairs, c15NumberPairs(c, p, newDir)...)
 		// struct definitions changing under an unchanged name (own original: harness/c15_types.go)
 		pairs = append(pairs, c15StructPairs(c, p, newDir)...)
 		// the tolerance class
@@ -1477,10 +1479,14 @@ func runC15(c *Ctx) {
 			continue
 		}
 		f := strings.Fields(reps[i])
-		if len(f) != 6 {
+		if len(f) != 7 {
 			r.violate(Violation{Kind: "correspondence", Key: "C15:driver-parse", What: "driver could not parse the encoded AST: " + reps[i],
 				Input: input, Broken: "correspondence C15.equiv (encoding)"})
 			continue
+		}
+		if f[6] != "true" {
+			r.violate(Violation{Kind: "correspondence", Key: "C15:fuel-inadequate", What: "the unfolding of a real compiled AST is cut off at Prog.fuel (semCallO = none)",
+				Input: input, Model: reps[i], Broken: "hypothesis of Props.C15.sem_fuel_stable"})
 		}
 		if f[2] != "true" || f[3] != "true" {
 			r.violate(Violation{Kind: "correspondence", Key: "C15:wf", What: "a real compiled AST does not satisfy the model's well-formedness hypothesis",
@@ -1684,9 +1690,34 @@ func c15EndToEnd(c *Ctx, rt *core.Runtime, pr *c15Pair, n int) {
 			ps.Lock() // restore the holder's lock for the rest of the scenario
 		}
 	}
-	// read-only attach is allowed while locked
-	if _, err := c15Attach(rt, psdir, pr.a, true); err != nil {
-		r.note("read-only attach while locked failed: %v", err)
+	// read-only (inspect) attaches are allowed while locked and never change anything - whether they
+	// are accepted (unchanged sources) or refused (edited sources): the holder's lock stays, every file
+	// is as before, and a writer is still refused
+	for _, ro := range []struct {
+		who string
+		pc  *c15Compiled
+	}{{"unchanged", pr.a}, {"edited", pr.b}} {
+		snap := c15Snapshot(psdir)
+		_, roErr := c15Attach(rt, psdir, ro.pc, true)
+		if roErr != nil && ro.who == "unchanged" {
+			r.note("read-only attach while locked failed: %v", roErr)
+		}
+		r.hist(fmt.Sprintf("e2e-inspect-while-locked:%s:accepted=%v", ro.who, roErr == nil))
+		_, lockErr := os.Stat(filepath.Join(psdir, "_lock"))
+		d := c15SnapshotDiff(snap, c15Snapshot(psdir))
+		pw, wErr := c15Attach(rt, psdir, pr.a, false)
+		if lockErr != nil || d != "" || wErr == nil {
+			r.violate(Violation{Kind: "property", Key: "C15:inspect-attach-changed-locked-pipestance",
+				What: fmt.Sprintf("history: mrp#1 holds the pipestance; mrp#2 attaches READ-ONLY with the %s sources (accepted = %v); afterwards _lock exists = %v, "+
+					"files changed: %q, and mrp#3's attach for writing succeeded = %v while mrp#1 is alive (%s)", ro.who, roErr == nil, lockErr == nil, d, wErr == nil, pr.desc),
+				Input:  map[string]interface{}{"history": "L1,inspect2(" + ro.who + "),L3", "edit": pr.edit, "what": pr.desc, "original": pr.a.text, "edited": pr.b.text},
+				Impl:   map[string]interface{}{"lock_file_exists": lockErr == nil, "third_attach_succeeded": wErr == nil, "files": d},
+				Expect: "lock file kept, nothing changed, writer refused", Broken: "theorem Props.C15.lts_mutual_exclusion (a read-only attach is not an action)"})
+			if wErr == nil {
+				pw.Unlock()
+			}
+			ps.Lock() // restore the holder's lock for the rest of the scenario
+		}
 	}
 	ps.Unlock() // first mrp exits
 	// re-attach with the edited sources
